@@ -226,6 +226,15 @@ func main() {
 		}
 		data, _ := json.MarshalIndent(out, "", " ")
 		fmt.Println(string(data))
+	case "unpinned":
+		// govc unpinned : call sites in functions under contract that no rule of that contract mentions
+		// (a review aid: candidates for argument / ordering rules; not part of any check)
+		e, err := NewEngine(repo, verif)
+		if err != nil {
+			fmt.Println("load error:", err)
+			os.Exit(2)
+		}
+		listUnpinned(e)
 	case "callees":
 		e, err := NewEngine(repo, verif)
 		if err != nil {
@@ -389,6 +398,38 @@ func runCheck(repo, verif, prop, tier string, verbose bool) int {
 			undecided = append(undecided, "information-flow analysis found no sink argument to check (vacuity guard)")
 		}
 		perFn["<information flow over all collector functions>"] = len(tobls)
+	}
+	for _, fd := range e.contracts.frozen {
+		if !hasProp(fd.Props, prop) {
+			continue
+		}
+		// no code of the repository assigns this variable of another package (an assumed contract rests on it)
+		offender, pos := "", ""
+		for _, k := range sortedKeys(e.fnByKey) {
+			fn := e.fnByKey[k]
+			if !e.isRepoFn(fn) {
+				continue
+			}
+			for _, b := range fn.Blocks {
+				for _, in := range b.Instrs {
+					if st, ok := in.(*ssa.Store); ok {
+						if g, ok := st.Addr.(*ssa.Global); ok && g.Pkg != nil && g.Pkg.Pkg.Path()+"."+g.Name() == fd.Global && offender == "" {
+							offender, pos = k, posOf(e.prog, st)
+						}
+					}
+				}
+			}
+		}
+		o := &Obligation{Name: "frozen:" + fd.Global, Fn: offender, Kind: "structure", Goal: BoolLit(offender == ""), Pos: pos, Props: fd.Props,
+			Note: "no code of the repository assigns " + fd.Global + " (" + fd.Note + ")", Backend: "structural", decls: NewDecls()}
+		if offender == "" {
+			o.Verdict = "syntactic"
+		} else {
+			o.Verdict = "structural-fail"
+			o.Note += ": assigned in " + offender
+		}
+		all = append(all, o)
+		perFn["<frozen variables of other packages>"]++
 	}
 	validated := 0
 	if tier == "thorough" && (prop == "C05" || prop == "C20") {
@@ -697,6 +738,61 @@ func writeUndecided(path, prop, tier string, seed int, reason string, wall float
 	os.WriteFile(path, data, 0o644)
 }
 
+func listUnpinned(e *Engine) {
+	for _, k := range sortedKeys(e.contracts.funcs) {
+		fc := e.contracts.funcs[k]
+		fn := e.fnByKey[k]
+		if fn == nil || !e.isRepoFn(fn) || len(fn.Blocks) == 0 || fc.Assumed {
+			continue
+		}
+		var text []string
+		for _, tr := range fc.Traces {
+			text = append(text, tr.Src)
+		}
+		for _, cl := range fc.Ensures {
+			text = append(text, cl.Src)
+		}
+		all := strings.Join(text, "\n")
+		seen := map[string]bool{}
+		for _, b := range fn.Blocks {
+			for _, in := range b.Instrs {
+				var cc *ssa.CallCommon
+				switch x := in.(type) {
+				case *ssa.Call:
+					cc = &x.Call
+				case *ssa.Defer:
+					cc = &x.Call
+				case *ssa.Go:
+					cc = &x.Call
+				}
+				if cc == nil {
+					continue
+				}
+				n := calleeName(cc)
+				if n == "" || seen[n] {
+					continue
+				}
+				seen[n] = true
+				if strings.HasPrefix(n, "slog.") || strings.HasPrefix(n, "fmt.") || strings.HasPrefix(n, "sync.") || strings.HasPrefix(n, "errors.") || strings.Contains(n, "debug") || strings.HasPrefix(n, "log.") {
+					continue
+				}
+				mentioned := strings.Contains(all, n)
+				for _, tr := range fc.Traces {
+					for _, pat := range []string{tr.A, tr.B} {
+						if pat != "" && pat != "*" && matchEvent(pat, n) {
+							mentioned = true
+						}
+					}
+				}
+				if !mentioned {
+					args := len(cc.Args)
+					fmt.Printf("%-60s %s (%d operands)\n", k, n, args)
+				}
+			}
+		}
+	}
+}
+
 func listCallees(e *Engine) {
 	seen := map[string]int{}
 	for k, fn := range e.fnByKey {
@@ -765,6 +861,9 @@ func (e *Engine) notAViolation(f *Obligation, name string, base map[string]Shape
 	}
 	if f.Kind == "cover" {
 		return "vacuity guard (the contract's preconditions are no longer satisfiable for this code)"
+	}
+	if f.Kind == "termination" {
+		return "a loop was added to " + owner + ", whose termination argument was that it has none; no variant is given for the loop and no schedule on which the call fails to return was found"
 	}
 	if f.Verdict == "structural-fail" && f.Kind != "cover" {
 		// structural obligations (lock copies, lock order, atomicity, information flow) do not rest on
